@@ -30,6 +30,11 @@ func runC11(c *an.Ctx) {
 	r11e(c)
 	// shared with C03: the fold reaches the root only if every aggregator forwards every update to its parent
 	c.As(map[string]string{"R03c": "R11f"}, func() { r03c(c) })
+	// round 7
+	r11h(c)
+	r11i(c)
+	c.As(map[string]string{"R15i": "R11g"}, func() { r15i(c) })
+	c.As(map[string]string{"R15e": "R11j"}, func() { r15e(c) })
 }
 
 // enumConsts returns name->value for the constants of the named type in package rel.
